@@ -257,3 +257,40 @@ func discharge(g *Gen, o *Obligation, workDir string, timeout int, st *solverSta
 		o.Status = "unknown"
 	}
 }
+
+// runLemmas checks the standalone spec-level lemmas of a property: /verif/spec/lemmas/<prop>_*.smt2, each a
+// closed SMT problem whose expected answer is unsat (statements about spec functions / polynomial identities, not code).
+func runLemmas(verif, prop string, timeout int, st *solverStats) []*Obligation {
+	files, _ := filepath.Glob(filepath.Join(verif, "spec", "lemmas", prop+"_*.smt2"))
+	var out []*Obligation
+	for _, f := range files {
+		name := strings.TrimSuffix(filepath.Base(f), ".smt2")
+		o := &Obligation{Name: "lemma." + name, Kind: "lemma", Unit: "spec/lemmas", Desc: "spec-level lemma " + filepath.Base(f), Props: []string{prop}, Pos: f, SMTFile: f, Status: "unknown"}
+		if b, err := os.ReadFile(f); err == nil {
+			if i := strings.Index(string(b), "\n"); i > 0 {
+				o.Desc = strings.TrimPrefix(string(b)[:i], "; ")
+			}
+		}
+		for _, sp := range []solverSpec{solvers[0], solvers[2], solvers[1]} {
+			r := runSolver(context.Background(), sp, f, timeout)
+			st.mu.Lock()
+			st.secs[r.solver] += r.secs
+			st.mu.Unlock()
+			o.Time += r.secs
+			if r.verdict == "unsat" {
+				o.Status, o.Solver = "proved", r.solver
+				st.mu.Lock()
+				st.bySolver[r.solver]++
+				st.mu.Unlock()
+				break
+			}
+			if r.verdict == "sat" {
+				o.Status, o.Solver, o.Model = "failed", r.solver, r.out
+				break
+			}
+			o.Output += fmt.Sprintf("[%s: %s] ", r.solver, r.verdict)
+		}
+		out = append(out, o)
+	}
+	return out
+}
